@@ -89,6 +89,15 @@ def flatten_class(world, cid):
     return entry
 
 
+def _rename(props, attr, new):
+    """The same Property object moved to another key: it keeps the source name
+    it was bound to (explicit, or its first attribute name)."""
+    pspec = props.pop(attr)
+    pspec = dict(pspec)
+    pspec["source"] = pspec.get("source") or attr
+    props[new] = pspec
+
+
 def apply_model(world, op):
     kind, node = spec_resolve(world, op["path"])
     if kind == "class":
@@ -103,6 +112,8 @@ def apply_model(world, op):
             node["props"][op["attr"]] = copy.deepcopy(op["prop"])
         elif op["op"] == "del_prop":
             del node["props"][op["attr"]]
+        elif op["op"] == "rename_prop":
+            _rename(node["props"], op["attr"], op["new"])
         elif op["op"] == "replace_props":
             node["props"] = copy.deepcopy(op["props"] or {})
         return
@@ -116,6 +127,8 @@ def apply_model(world, op):
         kw["properties"][op["attr"]] = copy.deepcopy(op["prop"])
     elif op["op"] == "del_prop":
         del kw["properties"][op["attr"]]
+    elif op["op"] == "rename_prop":
+        _rename(kw["properties"], op["attr"], op["new"])
     elif op["op"] == "replace_props":
         if op["props"] is None:
             kw.pop("properties", None)
@@ -144,6 +157,9 @@ def apply_live(built, op):
             target.properties.setdefault(op["attr"], prop)
         else:
             target.properties[op["attr"]] = prop
+    elif op["op"] == "rename_prop":
+        props = target.properties
+        props[op["new"]] = props.pop(op["attr"])
     elif op["op"] == "del_prop":
         if op.get("via") == "pop":
             target.properties.pop(op["attr"])
@@ -292,6 +308,15 @@ def gen_reconfig_for(rng, wg, model, path, kind, node, want_props, allow_parent=
         if not can_props:
             return None
         sub = rng.random()
+        if props and sub < 0.08:
+            fresh_names = [n for n in gen.PROP_NAMES if n not in props]
+            if fresh_names:
+                return {
+                    "op": "rename_prop",
+                    "path": path,
+                    "attr": rng.choice(list(props)),
+                    "new": rng.choice(fresh_names),
+                }
         if props and sub < 0.3:
             attr = rng.choice(list(props))
             return {"op": "del_prop", "path": path, "attr": attr, "via": rng.choice(["del", "del", "pop"])}
